@@ -184,7 +184,11 @@ def check(case: dict[str, Any], rec: Any) -> None:
         mv = MISSING if (v is None or v != v) else v
         if mv is MISSING:
             rec.bucket("missing-value-written")
-        n_gaps_before = len(buf.gaps)
+        if model.newest is not None and mv is not MISSING:
+            vb = model.valid
+            win = range(model.newest - cap + 1, model.newest + 1)
+            if all(k in win and k not in vb for k in (slot - 1, slot, slot + 1)):
+                rec.bucket("gap-split")
         if model.write(slot, mv):
             rec.bucket("eviction")
             interesting = True
@@ -214,8 +218,6 @@ def check(case: dict[str, Any], rec: Any) -> None:
                 return
             prev_end = g.end
             gapset |= set(range(round(a), round(b)))
-        if len(buf.gaps) > n_gaps_before and mv is not MISSING and n_gaps_before > 0:
-            rec.bucket("gap-split")
         if gapset != missing:
             interesting = interesting or bool(missing)
             rec.violation("gaps-differ-from-slots-without-valid-value",
